@@ -146,6 +146,19 @@ def canon_log(l):
 READ_ONLY = {"query", "query-explicit", "query-upgrades"}
 
 
+def canon_order(log):
+    """the order of consecutive READ-ONLY queries is immaterial to C03-C06 (no property mentions it and they
+    cannot influence each other): sort each run of them; everything relative to a modifying request stays ordered"""
+    out, run_ = [], []
+    for l in log:
+        if l[0] in READ_ONLY:
+            run_.append(l)
+        else:
+            out += sorted(run_) + [l]
+            run_ = []
+    return out + sorted(run_)
+
+
 def pacman_compare(r):
     if r["crash"]:
         return "harness crashed"
@@ -157,7 +170,7 @@ def pacman_compare(r):
         for k in ("installed", "removed", "upgraded"):
             if m[k] != im[k]:
                 return "task %d: %s model=%r impl=%r" % (i, k, m[k], im[k])
-        if m["log"] != im["log"]:
+        if canon_order(m["log"]) != canon_order(im["log"]):
             return "task %d: invocations model=%r impl=%r" % (i, m["log"], im["log"])
     fin = r["impl_dbs"][-1]
     md = r["model_db"]
@@ -388,6 +401,17 @@ def random_sequences(run, n):
                 tasks.append(dict(kind="template", src="s", dest=p, mode=mode, rendered="hello\n"))
             else:
                 tasks.append(dict(kind="file", path=p, state=run.rng.choice(["absent", "directory", "touch", "file"]), mode=run.rng.choice([None, "0755", "0700"])))
+        # a third of the sequences revisit a path (A then B on one destination, create then remove, ...): whether
+        # the second pass must be a no-op is then decided by the theorem's hypothesis, evaluated in Coq
+        if run.rng.random() < 0.35 and tasks:
+            t = dict(run.rng.choice(tasks))
+            if t["kind"] == "copy" and "content" in t:
+                t["content"] = run.rng.choice(S.CONTENTS)
+            elif t["kind"] == "file":
+                t["state"] = run.rng.choice(["absent", "directory", "touch", "file"])
+            else:
+                t["mode"] = run.rng.choice([None, "0644", "0600"])
+            tasks.insert(run.rng.randint(0, len(tasks)), t)
         out.append((nodes, tasks))
     return out
 
@@ -396,13 +420,15 @@ def c05(run, replay=None):
     tier = run.tier
     base = list(S.all_tasks(tier))
     cases = [(nodes, [t, t], "none") for nodes, t in base]
-    nseq = 300 if tier == "quick" else 5000
+    nseq = 700 if tier == "quick" else 8000
     seqs = random_sequences(run, nseq)
     for nodes, tasks in seqs:
         cases.append((nodes, tasks + tasks, "none"))
     res = S.run_fs_cases(run, cases, stamps=True)
+    hyp = S.noninterf_queries([(nodes, tasks[:len(tasks) // 2]) for nodes, tasks, _ in cases])
     mism, nontrivial, dist = [], set(), {}
-    for r in res:
+    hyp_count = {"met": 0, "not-met": 0, "not-met-and-second-pass-changed": 0}
+    for r, h in zip(res, hyp):
         d = S.compare_model_impl(r)
         n = len(r["tasks"]) // 2
         desc = dict(world=S.describe(r["nodes"], None, "none")["world"], tasks=r["tasks"][:n], applied="twice")
@@ -413,6 +439,15 @@ def c05(run, replay=None):
             continue
         first, second = io["results"][:n], io["results"][n:]
         if all(S.status_of(x["status"]) in ("ok", "changed") for x in first):
+            # judged exactly when the first pass meets the hypothesis of C05_second_pass_over_a_sequence_is_a_noop
+            # (no later task disturbs what an earlier one reads; no symbolic link among the paths read)
+            if n > 1:
+                hyp_count["met" if h else "not-met"] += 1
+            # (a single task applied twice is always judged: C05_fs_reapply_is_noop needs no such hypothesis)
+            if not h and n > 1:
+                if any(S.status_of(x["status"]) != "ok" or x["touched"] for x in second):
+                    hyp_count["not-met-and-second-pass-changed"] += 1
+                continue
             if any(S.status_of(x["status"]) == "changed" for x in first):
                 nontrivial.add(json.dumps(desc, sort_keys=True))
             for i, x in enumerate(second):
@@ -447,10 +482,11 @@ def c05(run, replay=None):
                                   dict(desc, observed=dict(first=a, second=b)))
     report_mismatches(run, mism, "C05 mirror vs implementation")
     cov(run, len(res) + len(pres), len(nontrivial),
-        "every product case applied twice in a row + random self-consistent sequences (distinct managed paths) of 2-6 state tasks applied twice; "
+        "every product case applied twice in a row + random sequences of 2-7 state tasks (a third of them revisit a path) applied twice, judged when the first pass meets the Coq-evaluated hypothesis noninterf_b of the sequence theorem; "
         "non-trivial = distinct cases whose first application succeeded and changed something (the second must then be ok and touch nothing, incl. mtime/ctime)",
         [dict(world=S.describe(r["nodes"], None, "none")["world"], tasks=r["tasks"][:len(r["tasks"]) // 2]) for r in res[:1] + res[-1:]],
-        dict(second_run_status_distribution=dist, fs_cases=len(res), sequences=nseq, pacman_cases=len(pres), model_impl_disagreements=len(mism)),
+        dict(second_run_status_distribution=dist, fs_cases=len(res), sequences=nseq, pacman_cases=len(pres), model_impl_disagreements=len(mism),
+             sequence_theorem_hypothesis=hyp_count),
         exhaustive=False)
 
 
@@ -465,6 +501,10 @@ def c06(run, replay=None):
     res = S.run_fs_cases(run, cases, stamps=False)
     dq = S.declared_queries([r if not r["impl"].get("crash") else res[0] for r in res])
     mism, nontrivial, dist = [], set(), {}
+    if not all(q["tmp_like_create"] for q in dq):
+        # hypothesis of C06_fs_check_predicts_real: the anonymous temp file gets the creation mode (probed per umask)
+        run.violation("the platform's tempfile() mode differs from the file creation mode: the hypothesis tmp_like_create of the C06 theorems is not met",
+                      dict(probe=C.probe(S.UMASK)), no_input=True)
     for i in range(0, len(res), 2):
         rc, rr = res[i], res[i + 1]
         for r in (rc, rr):
